@@ -191,6 +191,31 @@ def run(rep, tier, seed, pa):
         if snap_cont(other) != s_other:
             rep.violation("input-continuum-modified:merge(in place)", desc, "in-place merge modified its argument")
         rep.case(sample={"entry": "merge(in place)"})
+        # the merged result (out of place, +, in place) must be independent of the ARGUMENT too, including for annotators the argument only
+        # declares (no unit yet) and the receiver does not know: a unit added for them on one side must not appear on the other
+        for how in ("merge", "+", "in-place"):
+            c, d = fresh()
+            arg = pa.Continuum()
+            arg.add_annotator("zz_declared_only")
+            arg.add("zz_with_unit", Segment(3.0, 4.0), "L")
+            if how == "merge":
+                res = c.merge(arg)
+            elif how == "+":
+                res = c + arg
+            else:
+                c.merge(arg, in_place=True)
+                res = c
+            entry = "merge argument (%s)" % how
+            rep.count("entry=" + entry)
+            rep.case(sample={"entry": entry})
+            check_separated(rep, [("argument", arg), ("result of " + entry, res)], dict(desc, entry=entry))
+            for (mname, m, oname, o) in (("result", res, "argument", arg), ("argument", arg, "result", res)):
+                before = snap_cont(o)
+                m.add("zz_declared_only", Segment(7.0, 9.0), "L")
+                m.add("zz_with_unit", Segment(17.0, 19.0), "M")
+                if snap_cont(o) != before:
+                    rep.violation("not-independent:" + entry, dict(desc, entry=entry, mutated=mname, changed=oname),
+                                  "after %s, adding units to the %s changed the %s" % (entry, mname, oname))
     heap_histories(rep, pa, rng, 60 if tier == "quick" else 600)
 
 
